@@ -198,6 +198,18 @@ def setUserPerm (s : State) (uid : Int) (rec : List Nat) (perm : Nat) : State ×
   | .ok .none => (r.1, .ok (Int.ofNat perm, .none))
   | .ok e => (r.1, .ok (0, e))
 
+/-- a field writer of cmbbs (`PasswdUpdatePasswd`, `PasswdUpdateEmail`, … behind `ptt.ChangePasswd`,
+`ptt.ChangeEmail`): validity, open, Seek to `USEREC_RAW_SZ*(uid-1) + Offsetof(field)`, write the field's bytes.
+Nothing is read from the record and nothing else is written. -/
+def fieldWrite (s : State) (uid : Int) (off : Nat) (bs : List Nat) : State × Err :=
+  if !uidIsValid uid then (s, .invalidUID)
+  else match s.file with
+    | none => (s, .io)
+    | some f =>
+        let i := toIdx uid
+        if i < 0 then (s, .io)
+        else ({ s with file := some (writeAt f (RSZ * i.toNat + off) bs) }, .none)
+
 /-- `ptt.killUser(uid, _)` as far as `.PASSWDS` and SHM go (the account-expiry path: `tryCleanUser` →
 `checkAndExpireAccount` → `killUser`): `passwdSyncUpdate(uid, &UserecRaw{})` — the record is cleared but its Money
 is first taken from SHM, which is not touched.  Which accounts expire is a matter of the clock and of the account
